@@ -393,7 +393,7 @@ class SMUserList(UserList, ABC):
         #print('in extend method')
         if not type(self) == type(iterable):
             raise ValueError("can't append different type of object")
-        super().extend(iterable._A)
+        super().extend(iterable.data)
 
     def insert(self, i, item):
         """
